@@ -488,6 +488,8 @@ def c04_cases(tier, seed=0):
                 fused = "%s(%s)" % (f.src, ", ".join(parts))
                 inputs1 = subs_expected_inputs(f, {k1: v1})
                 step2 = G.E("tensor", None, (), "f_after_a", inputs1, f.out)
+                if subs_expected_inputs(step2, {k2: v2}) is None:
+                    continue  # the second substitution would be ill-typed (a name with two domains)
                 yield dict(kind="chain", label=label, src=chained, fused=fused,
                            tags=["f:" + label, "chain", "v:" + kind1.split(":")[0], "v:" + kind2.split(":")[0]]
                            + sorted(set(G.subs_tags(f, {k1: v1})) | set(G.subs_tags(step2, {k2: v2}))),
